@@ -49,7 +49,8 @@ def run(ck: Check) -> None:
     for i in range(n):
         docs.append(rand_doc(rng))
         keys.append(gen.key(rng.randrange(10)))
-    cases = [Case("signrepofile", [d, k.seed.hex()], tag="signrepo", group=i) for i, (d, k) in enumerate(zip(docs, keys))]
+    # two thirds of the input files are written in a random non-canonical layout
+    cases = [Case("signrepofile", [d, k.seed.hex(), (rng.getrandbits(32) if i % 3 else None)], tag="signrepo", group=i) for i, (d, k) in enumerate(zip(docs, keys))]
     res = ck.run_cases(cases, "corr:sign_all_in_repodata/file-bytes")
     second = []
     for d, k, r in zip(docs, keys, res):
@@ -79,7 +80,8 @@ def run(ck: Check) -> None:
             ck.violation("signatures section is not exactly one valid entry per artifact under the signer's key (stale entries gone)",
                          {"artifacts": [proto.enc(x) for x in names][:10], "signatures_keys": [proto.enc(x) for x in (sigs or {})][:12]}, "signrepo-entries")
             continue
-        second.append((Case("signrepofile", [out, k.seed.hex()], tag="signrepo-again"), b))
+        # signing the signed file again — as written, or re-laid-out by another tool in between — gives the same canonical file
+        second.append((Case("signrepofile", [out, k.seed.hex(), (rng.getrandbits(32) if rng.random() < 0.6 else None)], tag="signrepo-again"), b))
         # client side: wrap the artifact's metadata, attach the entry, verify via a pkg_mgr delegation
         trusted = gen.envelope(gen.delegating_md("key_mgr", {"pkg_mgr": gen.delegation([k], 1)}))
         ccases, expect = [], []
@@ -101,7 +103,7 @@ def run(ck: Check) -> None:
     for (c, b), r in zip(second, res2):
         ck.oracle_checks += 1
         if r.impl != "B " + b.hex():
-            ck.violation("signing an already signed repodata file again changed it", {"doc": proto.enc(c.args[0])[:600]}, "signrepo-idempotent")
+            ck.violation("signing an already signed repodata file again (possibly re-laid-out in between) does not give the same canonical file", {"doc": proto.enc(c.args[0])[:600]}, "signrepo-idempotent")
     # malformed documents / keys: same outcome class as the model, and an argument error where the structure is not a repodata document
     bad = [Case("signrepofile", [x, gen.key(1).seed.hex()], tag="bad-doc") for x in [{}, {"signatures": {}}, [], ["packages"], "packages", 5, None, {"packages.conda": {}}]]
     bad += [Case("signrepofile", [{"packages": {}}, x], tag="bad-key") for x in ["", "ab", "AB" * 32, "ab" * 31, " " + "ab" * 32, None, 5, gen.key(1).seed]]
